@@ -76,6 +76,23 @@ fn main() {
                         play(&mut g, &mut rng, pol, 16, 0.25);
                     }
                 }
+                "results" => {
+                    // C04's position family, enumerated (not sampled): both sides to move x a Gold rabbit on
+                    // each square of rank 8 or none x a Silver rabbit on each square of rank 1 or none x
+                    // which sides have any other rabbit x mover immobilised or not.  Each position is parsed
+                    // and observed; then one offered action is played from it (mid-turn clause).
+                    let fam = results_family();
+                    let (c, gold) = fam[(round - 1) % fam.len()];
+                    if round > fam.len() * 2 {
+                        break;
+                    }
+                    if !legal_position(&c) {
+                        continue;
+                    }
+                    if g.reset_parsed(&c, gold, 2 + (round % 50), "results") {
+                        play(&mut g, &mut rng, Policy::Random, 1 + round % 3, 1.0);
+                    }
+                }
                 "confined" => {
                     let (c, region) = confined_position(&mut rng);
                     let gold = rng.chance(0.5);
